@@ -63,7 +63,9 @@ func (l *ListSearch) sendNewLoc(operation chan<- Task, task Task) {
 
 func (l *ListSearch) updateMajor(operation chan<- Task, task Task) {
 	// Update the best value seen so far, and send a MajorIteration.
-	if task.F < l.bestF {
+	// The first value received is the best so far even if it is +Inf or
+	// NaN, and any value is better than NaN.
+	if l.bestIdx == -1 || task.F < l.bestF || (math.IsNaN(l.bestF) && !math.IsNaN(task.F)) {
 		l.bestF = task.F
 		l.bestIdx = task.ID
 	} else {
